@@ -18,7 +18,16 @@ PROPS = ["C%02d" % i for i in range(1, 21)]
 
 
 # --------------------------------------------------------------------------------------- worker
-def worker(prop, tier, seed, shard, nshards, out, only=None):
+HIST_CASES = {"quick": 160, "thorough": 2400}  # cases whose call history is recorded and re-run in reverse order by fresh processes
+
+
+def hist_stride(ncases, tier):
+    return max(1, -(-ncases // HIST_CASES[tier]))
+
+
+def worker(prop, tier, seed, shard, nshards, out, only=None, second=False):
+    import random
+
     import numpy as np
 
     from . import boot
@@ -34,7 +43,15 @@ def worker(prop, tier, seed, shard, nshards, out, only=None):
     if hasattr(mod, "setup"):
         mod.setup(ctx)
     pnum = int(prop[1:])
-    idxs = [only] if only is not None else range(shard, len(specs), nshards)
+    stride = hist_stride(len(specs), tier)
+    if only is not None:
+        idxs = [only]
+    elif second:  # second pass: only the history cases, in reverse order, in a fresh process
+        sampled = [i for i in range(len(specs)) if i % stride == 0]
+        idxs = sampled[shard::nshards][::-1]
+    else:
+        idxs = range(shard, len(specs), nshards)
+    history = {}
     limit = getattr(mod, "CASE_TIMEOUT", {"quick": 240, "thorough": 900})[tier]
     harness_errors = ctx.harness_errors
     t0 = time.monotonic()
@@ -43,6 +60,10 @@ def worker(prop, tier, seed, shard, nshards, out, only=None):
         ctx.case = (idx, spec)
         rng = np.random.default_rng([seed, pnum, idx])
         ctx.freeze_case = (idx * 2654435761 + seed * 40503 + pnum) % 4 == 1  # one case in four hands the library read-only arrays
+        # any use of the global generators inside the library is tied to the case, not to what ran before it
+        np.random.seed((seed * 1000003 + pnum * 7919 + idx) % (2 ** 32))
+        random.seed(seed * 1000003 + pnum * 7919 + idx)
+        ctx.hist = [] if (only is not None or idx % stride == 0) and os.environ.get("VMON_HISTORY", "1") != "0" else None
         try:
             with watchdog(limit):
                 mod.run(ctx, spec, rng)
@@ -57,6 +78,9 @@ def worker(prop, tier, seed, shard, nshards, out, only=None):
             else:
                 harness_errors.append({"case": idx, "trace": traceback.format_exc()[-2000:]})
         ctx.cases_run += 1
+        if ctx.hist is not None:
+            history[str(idx)] = ctx.hist
+            ctx.hist = None
     if hasattr(mod, "teardown"):
         mod.teardown(ctx)
     res = {
@@ -75,9 +99,49 @@ def worker(prop, tier, seed, shard, nshards, out, only=None):
         "sites": {"|".join(map(str, k)): v for k, v in ctx.sites.items()},
         "harness_errors": harness_errors,
         "wall_s": time.monotonic() - t0,
+        "history": history,
     }
     with open(out, "w") as fh:
         json.dump(res, fh)
+
+
+def compare_histories(prop, tier, seed, first, second, specs_of=None):
+    """Offline checker of the recorded call histories: every sampled case was run once in its shard's forward order and once, by a fresh
+    process, in reverse order among the sampled cases only.  A library function is a function of its arguments: the same call must
+    have produced the same value (up to solver accuracy) both times.  Returns (violations, stats)."""
+    from . import snap
+
+    stats = collections.Counter()
+    fns = set()
+    out = []
+    for idx, hb in second.items():
+        ha = first.get(idx)
+        if ha is None:
+            stats["cases-without-first-pass"] += 1
+            continue
+        stats["cases-compared"] += 1
+        for pos, (a, b) in enumerate(zip(ha, hb)):
+            if a[0] != b[0]:
+                stats["cases-with-different-call-sequence"] += 1  # an earlier borderline value changed the workload's path: not compared further
+                break
+            if a[2] == ["x"] or b[2] == ["x"]:
+                stats["cases-cut-at-a-failed-call"] += 1
+                break
+            tol = 2e-3 if (a[3] or b[3]) else 1e-7
+            diff = snap.compare_fingerprints(a[2], b[2], tol)
+            stats["calls-compared"] += 1
+            fns.add(a[0])
+            if diff:
+                out.append({
+                    "property": prop, "monitor": "H0:call-history", "mechanism": f"history:{a[0]}:result-depends-on-earlier-calls",
+                    "case": int(idx), "spec": None, "tier": tier, "seed": seed,
+                    "detail": {"function": a[0], "call_number_in_case": pos, "difference": diff, "forward_order": a[2], "reverse_order_fresh_process": b[2],
+                               "same_argument_digest": a[1] == b[1], "tolerance": tol},
+                    "history_first_pass": ha,
+                })
+                break
+    stats["functions-compared"] = len(fns)
+    return out, stats
 
 
 # --------------------------------------------------------------------------------------- parent
@@ -134,7 +198,15 @@ def run_parent(prop, tier, seed, nshards, replay=None):
         if only is not None:
             cmd += ["--only", str(only)]
         procs.append((i, out, subprocess.Popen(cmd, env=env, cwd=VERIF, stdout=subprocess.PIPE, stderr=subprocess.STDOUT, text=True)))
-    parts, dead = [], []
+    nsecond = 0
+    if not replay and os.environ.get("VMON_HISTORY", "1") != "0":
+        nsecond = 4 if tier == "quick" else 8
+        for i in range(nsecond):
+            out = os.path.join(tmp, f"second{i}.json")
+            cmd = [sys.executable, "-B", "-m", "vmon.runner", "--worker", prop, "--tier", tier, "--seed", str(seed), "--shard", str(i),
+                   "--nshards", str(nsecond), "--out", out, "--second"]
+            procs.append((-1 - i, out, subprocess.Popen(cmd, env=env, cwd=VERIF, stdout=subprocess.PIPE, stderr=subprocess.STDOUT, text=True)))
+    parts, dead, second_parts = [], [], []
     deadline = time.monotonic() + shard_timeout
     for i, out, p in procs:
         try:
@@ -148,13 +220,35 @@ def run_parent(prop, tier, seed, nshards, replay=None):
             dead.append((i, f"worker-exit-{p.returncode}", (stdout or "")[-3000:]))
             continue
         with open(out) as fh:
-            parts.append(json.load(fh))
+            (parts if i >= 0 else second_parts).append(json.load(fh))
         os.unlink(out)
     try:
         os.rmdir(tmp)
     except OSError:
         pass
     m = merge(parts)
+    # ---- offline check of the recorded call histories (forward order vs reverse order in fresh processes)
+    first_hist, second_hist = {}, {}
+    for p_ in parts:
+        first_hist.update(p_.get("history", {}))
+    for p_ in second_parts:
+        second_hist.update(p_.get("history", {}))
+    hist_stats = {}
+    if replay and rp.get("history_first_pass") is not None:
+        second_hist, first_hist = first_hist, {str(only): rp["history_first_pass"]}
+    if second_hist:
+        from .findings import Findings
+
+        hv, hist_stats = compare_histories(prop, tier, seed, first_hist, second_hist)
+        m["evals"]["H0:call-history"] += hist_stats.get("calls-compared", 0)
+        fnd = Findings()
+        for v in hv:
+            entry = fnd.lookup(prop, v["mechanism"])
+            if entry is not None and entry["kind"] == "known":
+                m["known"][v["mechanism"]] += 1
+                m["known_what"][v["mechanism"]] = entry["what"]
+            else:
+                m["violations"].append(v)
     wall = time.monotonic() - t0
 
     # ---- verdict
@@ -222,6 +316,7 @@ def run_parent(prop, tier, seed, nshards, replay=None):
                 "case_level_inconclusive": dict(m["inconclusive"]),
                 "case_level_inconclusive_cases": m["inconclusive_cases"][:30],
                 "known_findings_observed": dict(m["known"]),
+                "call_history_monitor": dict(hist_stats),
                 "inconclusive": inconcl,
                 "shards": nshards,
                 "tree": boot.tree_id(),
@@ -278,11 +373,12 @@ def main(argv=None):
     ap.add_argument("--shard", type=int, default=0)
     ap.add_argument("--out")
     ap.add_argument("--only", type=int)
+    ap.add_argument("--second", action="store_true")
     a = ap.parse_args(argv)
     if a.prop not in PROPS:
         ap.error("unknown property " + a.prop)
     if a.worker:
-        worker(a.prop, a.tier, a.seed, a.shard, a.nshards, a.out, a.only)
+        worker(a.prop, a.tier, a.seed, a.shard, a.nshards, a.out, a.only, a.second)
         return 0
     return run_parent(a.prop, a.tier, a.seed, a.nshards, a.replay)
 
